@@ -49,7 +49,7 @@ func parallel(cfg Config, alpha []Event, universe []string, jobs []job) []Result
 					return
 				}
 				for j := lo; j < lo+64 && j < len(jobs); j++ {
-					out[j] = w.runTrace(cfg, pathEvents(alpha, jobs[j].path), universe)
+					out[j] = w.runTrace(cfg, pathEvents(alpha, jobs[j].path), universe, false)
 				}
 			}
 		}()
@@ -248,7 +248,7 @@ func replay(path string, alpha []Event) {
 		common.Broken("replay file names unknown config %q", f.Replay.Config)
 	}
 	fmt.Printf("replaying %d events on config %s (tree under test: %s)\n", len(f.Replay.Events), cfg.Name, common.RepoDir())
-	res := newWorker().runTrace(cfg, f.Replay.Events, probeUniverse(alpha))
+	res := newWorker().runTrace(cfg, f.Replay.Events, probeUniverse(alpha), true)
 	for i, s := range res.Steps {
 		fmt.Printf("step %d: %s\n  predicted: %s %s\n  observed:  status=%d class=%s data=%s msg=%q log=%v\n  body: %s\n  state: %s\n  model: %s\n",
 			i+1, s.Event, s.Pred.Class, nick(s.Pred.Text), s.Obs.Status, s.Obs.Class, s.Obs.Data, s.Obs.Msg, s.Obs.Log, s.Obs.Body, s.State, s.Model)
@@ -269,7 +269,7 @@ func main() {
 		replay(p, alpha)
 	}
 	c := common.New("C15", "model_checking")
-	depth, seqLen := 4, 3
+	depth, seqLen := 5, 3
 	c.Budget(150 * time.Second)
 	if c.Tier == "thorough" {
 		depth, seqLen = 8, 4
@@ -322,13 +322,31 @@ func main() {
 	seqTotal, seqDone := 0, true
 	seqPer := map[string]int{}
 	for _, cfg := range configs {
-		n, done := r.allSequences(cfg, core, seqLen)
+		l := seqLen
+		if !cfg.Deep {
+			l--
+		}
+		n, done := r.allSequences(cfg, core, l)
 		seqPer[cfg.Name] = n
 		seqTotal += n
 		seqDone = seqDone && done
 	}
-	fmt.Printf("all-sequences phase: %d core events, length<=%d, %d sequences over %d configs, completed=%v\n",
-		len(core), seqLen, seqTotal, len(configs), seqDone)
+	pairs := 0
+	if c.Tier == "thorough" { // every ordered pair of the FULL alphabet, no deduplication
+		all := make([]int, len(alpha))
+		for i := range all {
+			all[i] = i
+		}
+		for _, cfg := range configs {
+			n, done := r.allSequences(cfg, all, 2)
+			pairs += n
+			seqDone = seqDone && done
+		}
+		fmt.Printf("full-alphabet phase: all sequences of length<=2 over %d events, %d sequences over %d configs\n", len(alpha), pairs, len(configs))
+	}
+	seqTotal += pairs
+	fmt.Printf("all-sequences phase: %d core events, length<=%d (%d on the non-deep configs), %d sequences over %d configs, completed=%v\n",
+		len(core), seqLen, seqLen-1, seqTotal, len(configs), seqDone)
 
 	c.Cov["states"] = states
 	c.Cov["transitions"] = transitions
@@ -337,6 +355,7 @@ func main() {
 	c.Cov["bfs_traces"] = bfsTraces
 	c.Cov["all_sequences_traces"] = seqTotal
 	c.Cov["all_sequences_per_config"] = seqPer
+	c.Cov["full_alphabet_length2_traces"] = pairs
 	c.Cov["per_config"] = stats
 	c.Cov["frontier_emptied_all_configs"] = allClosed
 	c.Cov["exhaustive"] = allDepth && seqDone
@@ -354,11 +373,11 @@ func main() {
 	c.Cov["bfs_transition_classes"] = hist
 	c.Cov["bounds"] = map[string]any{
 		"bfs_depth":           depth,
-		"all_sequences_len":   seqLen,
+		"all_sequences_len":   fmt.Sprintf("%d on configs with all_sequences_full_length, %d on the others", seqLen, seqLen-1),
 		"texts":               texts,
 		"configs":             configs,
 		"state_key":           "APQ cache entries (+LRU recency order) + query-document cache keys (+order)",
-		"exhaustive_means":    "every event of the alphabet applied to every state first reached at depth < bfs_depth, and every core-alphabet sequence of length <= all_sequences_len, on every config",
+		"exhaustive_means":    "every event of the alphabet applied to every state first reached at depth < bfs_depth, and every core-alphabet sequence of length <= all_sequences_len; both on every config",
 		"frontier_emptied":    "true for a config when a BFS level produced no new state: every event was applied in every reachable state",
 		"successor_semantics": "fresh server, replay of the shortest known path plus one event",
 	}
